@@ -29,8 +29,74 @@ func init() {
 	})
 }
 
+// c15Names: the exported name generators the marshalers are configured with.
+// Routing is by name, so two different types must get different names and one
+// value must get the name it reports: the type-derived names use the whole
+// %T text (pointer marker and package prefix aside — nothing else is cut off),
+// and NamedStruct asks the value every time.
+func c15Names(c *Check, P string) {
+	const rel = "components/cqrs"
+	for _, name := range []string{"StructName", "FullyQualifiedStructName"} {
+		fn := c.P.Func(rel, name)
+		if !c.Use(P+".O6", fn, "cqrs."+name) || len(fn.Params) != 1 {
+			continue
+		}
+		n := 0
+		for _, cl := range CallsTo(fn, "fmt.Sprintf") {
+			f, isS := ConstString(cl.Common().Args[0])
+			els := VariadicElems(cl.Common().Args[1])
+			if isS && f == "%T" && len(els) == 1 && FromParam(fn.Params[0])(unwrapIface(els[0])) {
+				n++
+			}
+		}
+		c.Floor(P+".O6", name+`: fmt.Sprintf("%T", v)`, n, 1)
+		cut := false
+		AllInstrs(fn, func(in ssa.Instruction) {
+			if sl, ok := in.(*ssa.Slice); ok {
+				if b, isB := sl.X.Type().Underlying().(*types.Basic); isB && b.Kind() == types.String {
+					cut = true
+					c.Report(false, P+".O6", "NAME-KEEPS-TYPE-TEXT", fn, sl.Pos(), name+": string slicing", "the type name is not truncated at a position found in the text (type arguments of generic types, for instance, are part of what tells two types apart)")
+				}
+			}
+		})
+		if !cut {
+			c.Report(true, P+".O6", "NAME-KEEPS-TYPE-TEXT", fn, fn.Pos(), name, "the type name is not truncated at a position found in the text")
+		}
+	}
+	ns := c.P.Func(rel, "NamedStruct")
+	if !c.Use(P+".O6", ns, "cqrs.NamedStruct") || len(ns.AnonFuncs) != 1 || len(ns.Params) != 1 {
+		return
+	}
+	lit := ns.AnonFuncs[0]
+	for i, r := range Returns(lit) {
+		ok := AllOrigins(r.Results[0], func(v ssa.Value) bool {
+			call, isCall := v.(*ssa.Call)
+			if !isCall {
+				return false
+			}
+			if call.Call.IsInvoke() && call.Call.Method.Name() == "Name" {
+				// asked of the value itself
+				return AllOrigins(call.Call.Value, func(x ssa.Value) bool {
+					e, isE := x.(*ssa.Extract)
+					if !isE {
+						return false
+					}
+					ta, isTA := e.Tuple.(*ssa.TypeAssert)
+					return isTA && len(lit.Params) == 1 && FromParam(lit.Params[0])(ta.X)
+				})
+			}
+			// or the fallback generator applied to the value
+			return !call.Call.IsInvoke() && CalleeFn(&call.Call) == nil && AllOrigins(call.Call.Value, IsParam(ns.Params[0])) && len(call.Call.Args) == 1 && FromParam(lit.Params[0])(call.Call.Args[0])
+		})
+		c.Report(ok, P+".O6", "NAMED-STRUCT-ASKS-THE-VALUE", lit, r.Pos(), fmt.Sprintf("NamedStruct return#%d", i), "the name is what this value's Name() reports, or the fallback generator's answer for this value — computed on every call (a name remembered per Go type is wrong for types whose Name() depends on the value)")
+	}
+}
+
 func runC15(c *Check) {
 	P := "C15"
+	c15Names(c, P)
+	// the codecs the processors and buses rely on (decided as C16.O5): Unmarshal always runs the decoder
+	c16Codecs(c, P+".S")
 	// processor closures: functions of package cqrs returning (NoPublishHandlerFunc, error)
 	type proc struct {
 		outer, inner *ssa.Function
